@@ -12,8 +12,8 @@ import (
 	"polyverif/internal/hx"
 )
 
-// keyPool: deterministic public keys (derived from the run's PRNG, never from crypto/rand) of every scheme the key
-// library serializes: P-256 (33-byte special form), secp256k1 / P-224 / P-384 / P-521 ECDSA, SM2, Ed25519.
+// keyPool: deterministic public keys (derived from the run's PRNG, never from crypto/rand) of the schemes the key
+// library serializes: P-256 (33-byte special form), secp256k1 / P-384 / P-521 ECDSA, SM2, Ed25519.
 type keyPool struct {
 	keys []keypair.PublicKey
 	ser  [][]byte
@@ -25,7 +25,8 @@ func newKeyPool(rng *hx.Rng, n int) *keyPool {
 		c   elliptic.Curve
 		alg ec.ECAlgorithm
 	}{{elliptic.P256(), ec.ECDSA}, {elliptic.P256(), ec.ECDSA}, {btcec.S256(), ec.ECDSA}, {sm2.SM2P256V1(), ec.SM2},
-		{elliptic.P384(), ec.ECDSA}, {elliptic.P224(), ec.ECDSA}, {elliptic.P521(), ec.ECDSA}}
+		{elliptic.P384(), ec.ECDSA}, {elliptic.P521(), ec.ECDSA}}
+	// (P-224 is left out: its point decompression takes 5 ms per key, Tonelli-Shanks over big.Int)
 	for i := 0; i < n; i++ {
 		var pk keypair.PublicKey
 		if i%8 == 7 {
